@@ -2624,6 +2624,7 @@ class ExpressionChecker(ExpressionVisitor[Type], ExpressionCheckerSharedApi):
                         f'"{var_name}" is considered instance variable,'
                         " to make it class variable use ClassVar[...]",
                         context,
+                        code=codes.CALL_ARG,
                     )
 
     def check_var_args_kwargs(
@@ -4896,6 +4897,7 @@ class ExpressionChecker(ExpressionVisitor[Type], ExpressionCheckerSharedApi):
                 self.msg.note(
                     '"assert_type" expects everything to be "Any" in unchecked functions',
                     expr.expr,
+                    code=codes.ASSERT_TYPE,
                 )
             self.msg.assert_type_fail(source_type, target_type, expr)
         return source_type
